@@ -87,7 +87,7 @@ func TestVerifC06(t *testing.T) {
 				if !reflect.DeepEqual(o, first) {
 					out.Emit(vc.M{"kind": "violation", "predicate": "Deterministic", "site": "Set*Powers", "class": "same-input-different-summary",
 						"what": fmt.Sprintf("the same proofs gave two different summaries (map order / reused summary): %+v vs %+v", first, o),
-						"i": ev.I, "src": ev.Src, "pow": ev.Pow, "state": w.StateJSON()})
+						"i":    ev.I, "src": ev.Src, "pow": ev.Pow, "state": w.StateJSON()})
 					break
 				}
 			}
